@@ -451,7 +451,10 @@ class IntegerFieldFormat(AbstractFieldFormat):
                 # might be missing from the rule parts.
                 assert self.length.lower_limit == self.length.upper_limit
                 length = ranges.Range("1...%d" % self.length.upper_limit)
-            length_range = ranges.create_range_from_length(length)
+            try:
+                length_range = ranges.create_range_from_length(length)
+            except errors.RangeValueError as error:
+                raise errors.InterfaceError("length of integer field must be valid: %s" % error)
 
         has_rule = (rule is not None) and (rule.strip() != "")
         if has_rule:
